@@ -1575,7 +1575,7 @@ func (fe *FE) execSliceStable(st *State, ins ssa.Instruction, callee *ssa.Functi
 // the integer bound to the first %d of a format that starts with "line %d" (-1 otherwise).
 // Assumed (extern): these functions are total, have no effect on modelled state, errors are fresh and non-nil.
 func (fe *FE) execFmt(st *State, ins ssa.Instruction, callee *ssa.Function, ci *callInfo, res ssa.Value, site, full string) bool {
-	fe.usedExt["extern "+full+" (native model: total, pure, fresh non-nil error; ghost cite/fmtline = first %d of a format starting with \"line %d\")"] = true
+	fe.usedExt["extern "+full+" (native model: total, pure, fresh non-nil error; ghost cite/fmtline = first %d of a format starting with \"line %d\"; \"%s%s\" of two strings is their concatenation)"] = true
 	call := ins.(ssa.CallInstruction)
 	com := call.Common()
 	hooks := fe.matchHooks(ci, "call")
@@ -1603,6 +1603,15 @@ func (fe *FE) execFmt(st *State, ins ssa.Instruction, callee *ssa.Function, ci *
 		s := fe.newConst(st, "fmt", SStr)
 		if l := lineOf(); l != "" {
 			st.assume(eq("(fmtline "+s+")", l))
+		}
+		// "%s%s" applied to two strings is their concatenation
+		if k, ok := com.Args[0].(*ssa.Const); ok && k.Value != nil && constant.StringVal(k.Value) == "%s%s" && len(ci.args) >= 2 && ci.args[1].Kind == VSlice {
+			sl := ci.args[1]
+			et := com.Args[1].Type().Underlying().(*types.Slice).Elem()
+			h := fe.heapTerm(st, elemBase(et), arraySort([]string{SInt, SInt}, SInt))
+			r0 := sel(h, sl.Arr, sl.Off)
+			r1 := sel(h, sl.Arr, "(+ "+sl.Off+" 1)")
+			st.assume(implies(and(eq(sl.Len, "2"), "(not (= "+r0+" 0))", "(not (= "+r1+" 0))", eq("(ikind "+r0+")", "24"), eq("(ikind "+r1+")", "24")), eq(s, "(strcat (istr "+r0+") (istr "+r1+"))")))
 		}
 		out = scalar(s, SStr, types.Typ[types.String])
 	case "fmt.Errorf":
